@@ -100,7 +100,7 @@ def u_write_forever(ctx, index):
     ctx.cover('forever/iteration')
     if h.passes and h.passes[-1][0] == 'raise':
       ctx.check('C03/writeForever/escape_is_logged', z3.BoolVal(len(h.log.of('log.err')) == 1))
-      ctx.check('C03/writeForever/backs_off_after_error', z3.BoolVal(len(h.log.of('time.sleep')) == 1))
+      ctx.check('aux/writeForever/backs_off_after_error', z3.BoolVal(len(h.log.of('time.sleep')) == 1))   # (not part of C03)
   h.ip.loops[(WFE, 0)].ghost_step = step
   raised = None
   try:
@@ -123,7 +123,9 @@ def u_write_forever(ctx, index):
 
 def u_shutdown_modify(ctx, index):
   """shutdownModifyUpdateSpeed (a 'before shutdown' trigger): afterwards MIN_TIMESTAMP_LAG == 0
-  and both buckets (when configured) have capacity == fill rate == MAX_UPDATES_PER_SECOND_ON_SHUTDOWN."""
+  (C04) and both buckets (when configured) have capacity == fill rate ==
+  MAX_UPDATES_PER_SECOND_ON_SHUTDOWN (C20: "changing the limits at shutdown takes effect"; C04 itself
+  holds whatever the shutdown rate is)."""
   from .writer_units import Bucket
   log = EffectLog()
   shut = ctx.fresh(z3.RealSort(), 'MAX_UPDATES_PER_SECOND_ON_SHUTDOWN')
@@ -151,10 +153,10 @@ def u_shutdown_modify(ctx, index):
     if b is None or not configured:
       continue
     ok = len(ev) == 1
-    ctx.check('C04/shutdownModifyUpdateSpeed/%s_limits_set_once' % name, z3.BoolVal(ok))
+    ctx.check('C20/shutdownModifyUpdateSpeed/%s_limits_set_once' % name, z3.BoolVal(ok))
     if ok:
       c, r = ev[0][1]
-      ctx.check('C04/shutdownModifyUpdateSpeed/%s_limits_are_shutdown_rate' % name, z3.And(c == shut, r == shut))
+      ctx.check('C20/shutdownModifyUpdateSpeed/%s_limits_are_shutdown_rate' % name, z3.And(c == shut, r == shut))
 
 
 def shutdown_wiring(index):
